@@ -51,3 +51,30 @@ package main
 //@   partial
 //@   requires t != nil
 //@   ensures[submit; C20] key == 13 && ok && old(bufIs(t.line)) ==> len(line) == clCnt(clLen()) && (forall k int :: 0 <= k && k < len(line) ==> piece(old(t.line), line[k], k))
+
+// The main loop hands every statement ReadLine returns to the session, in order; an error of one statement does not
+// drop the statements after it (the loop over the statements of one submission is only left when all were executed).
+//@ func NewTerminal(c io.ReadWriter, prompt string) *Terminal
+//@   props C20
+//@   trusted
+//@   modifies nothing
+//@   ensures result != nil && fresh(result) && result.Escape != nil
+
+//@ func (t *Terminal) SetPrompt(prompt string)
+//@   props C20
+//@   trusted
+//@   modifies nothing
+
+//@ func (t *Terminal) ReadLine() ([]string, error)
+//@   props C20
+//@   trusted
+//@   modifies allelems(string)
+//@   ensures result0 == nil || fresh(result0)
+
+//@ func runTerminal(sess *engine.Session) error
+//@   props C20
+//@   requires sess != nil && txn == 0 && engine.sessInv(sess)
+//@   modifies sess.CurDB, sess.RelationService, txn, storeState, ioFailed, walFlushes, rowsApplied, entryCount, seq, openStores, openDB, @storeHeap, all(storage.Row.Vals), all(storage.Field.Column), allelems(any), allelems(*storage.Row), allelems(string)
+//@   loop 1 invariant sess != nil && txn == 0 && engine.sessInv(sess) && t != nil
+//@   loop 2 invariant sess != nil && txn == 0 && engine.sessInv(sess) && t != nil
+//@   loop 2 exit[all.statements; C20] rangeindex + 1 >= len(lines)
